@@ -15,7 +15,7 @@ func ghostHeapSort(name string) Sort {
 	switch name {
 	case "G:buf", "G:wr":
 		return ArrOf(SInt, SString)
-	case "G:rdpos", "G:xdpos":
+	case "G:rdpos", "G:xdpos", "G:xddepth":
 		return ArrOf(SInt, SInt)
 	case "G:rdeof":
 		return ArrOf(SInt, SBool)
@@ -43,7 +43,8 @@ func opaqueModifies(c *FnCtx, pt types.Type, obj *Term) []modTarget {
 		return []modTarget{{heap: "G:buf", obj: obj}}
 	case "encoding/xml.Decoder":
 		c.eng.heapSorts["G:xdpos"] = ghostHeapSort("G:xdpos")
-		return []modTarget{{heap: "G:xdpos", obj: obj}}
+		c.eng.heapSorts["G:xddepth"] = ghostHeapSort("G:xddepth")
+		return []modTarget{{heap: "G:xdpos", obj: obj}, {heap: "G:xddepth", obj: obj}}
 	}
 	return nil
 }
@@ -60,6 +61,8 @@ func ghostIntrinsicHeaps(fn *ssa.Function) []string {
 		return []string{"G:wr"}
 	case "verifTokPos":
 		return []string{"G:xdpos"}
+	case "verifTokDepth":
+		return []string{"G:xddepth"}
 	case "verifHeight":
 		return []string{"Mdom:map[string]interface{}", "Msel:map[string]interface{}"}
 	}
@@ -84,6 +87,8 @@ func (c *FnCtx) ghostIntrinsic(fr *Frame, st *State, fn *ssa.Function, args []*T
 		return []*Term{c.gget(st, "G:wr", c.ioID(args[0]))}, true
 	case "verifTokPos":
 		return []*Term{c.gget(st, "G:xdpos", args[0])}, true
+	case "verifTokDepth": // number of currently open elements as seen by Decoder.Token
+		return []*Term{c.gget(st, "G:xddepth", args[0])}, true
 	case "verifFresh": // object allocated during this call
 		if fr == nil || c.entryWM == nil {
 			return []*Term{ts.Bool(true)}, true
@@ -329,6 +334,25 @@ func (c *FnCtx) model(fr *Frame, st *State, x *ssa.Call, name string, args []*Te
 		return nil
 	case "time.Sleep":
 		return nil
+	case "encoding/xml.NewDecoder":
+		use("xml.NewDecoder(r): a decoder object at token position 0, element depth 0, reading from r")
+		o := c.allocObj(st, "xmldec")
+		c.gset(st, "G:xdpos", o, ts.Int(0))
+		c.gset(st, "G:xddepth", o, ts.Int(0))
+		c.addFact(st, ts.Eq(ts.UF("xdsrc", SInt, o), c.ioID(args[0])))
+		return []*Term{o}
+	case "(*encoding/xml.Decoder).Token", "(*encoding/xml.Decoder).RawToken":
+		raw := strings.HasSuffix(name, "RawToken")
+		if raw {
+			use("xml.Decoder.RawToken: returns the next token or an error; tokens are StartElement, EndElement, CharData, Comment, ProcInst or Directive values; no nesting guarantee")
+		} else {
+			use("xml.Decoder.Token: as RawToken, and guarantees well-nested elements: an EndElement is only returned while an element is open; io.EOF only outside all elements")
+		}
+		return c.tokenModel(st, args[0], raw, cc)
+	case "(*encoding/xml.Decoder).InputOffset":
+		r := ts.Fresh("inputoffset", SInt)
+		c.addFact(st, ts.Ge(r, ts.Int(0)))
+		return []*Term{r}
 	}
 	return c.modelMore(fr, st, x, name, args, cc)
 }
@@ -475,4 +499,45 @@ func (c *FnCtx) modelMore(fr *Frame, st *State, x *ssa.Call, name string, args [
 		c.writeLog.wm = true
 	}
 	return c.freshResults(st, cc, "ext!"+sanitize(name))
+}
+
+// tokenModel: the assumed contract of (*xml.Decoder).Token / RawToken over a ghost token list.
+func (c *FnCtx) tokenModel(st *State, dec *Term, raw bool, cc *ssa.CallCommon) []*Term {
+	ts := c.eng.ts
+	tc := c.eng.tc
+	pos := c.gget(st, "G:xdpos", dec)
+	depth := c.gget(st, "G:xddepth", dec)
+	c.addFact(st, ts.And(ts.Ge(pos, ts.Int(0)), ts.Ge(depth, ts.Int(0))))
+	tok := ts.UF("xdtok", SVal, dec, pos)
+	err := ts.UF("xderr", SVal, dec, pos)
+	eof := ts.Named("g!io.EOF", SVal)
+	c.addFact(st, ts.Or(tc.IsNilVal(err), ts.App("(_ is VBox)", SBool, err)))
+	c.addFact(st, ts.Not(tc.IsNilVal(eof)))
+	// token kinds
+	pkg := cc.Signature().Results().At(0).Type().(*types.Named).Obj().Pkg()
+	kind := func(n string) types.Type { return pkg.Scope().Lookup(n).Type() }
+	kinds := []string{"StartElement", "EndElement", "CharData", "Comment", "ProcInst", "Directive"}
+	var is []*Term
+	for _, k := range kinds {
+		is = append(is, tc.IsType(kind(k), tok))
+	}
+	ok := tc.IsNilVal(err)
+	c.addFact(st, ts.Implies(ok, ts.Or(is...)))
+	// element names are never empty
+	if se, isSt := kind("StartElement").Underlying().(*types.Struct); isSt {
+		sv := tc.Unbox(kind("StartElement"), tok)
+		nameT := se.Field(0).Type()
+		local := tc.Field(nameT, tc.Field(kind("StartElement"), sv, 0), 1)
+		c.addFact(st, ts.Implies(ts.And(ok, is[0]), ts.Gt(ts.Len(local), ts.Int(0))))
+	}
+	res := ts.Ite(ok, tok, nilVal(ts))
+	c.gset(st, "G:xdpos", dec, ts.Ite(ok, ts.Add(pos, ts.Int(1)), pos))
+	if !raw {
+		isStart, isEnd := is[0], is[1]
+		c.addFact(st, ts.Implies(ts.And(ok, isEnd), ts.Ge(depth, ts.Int(1))))
+		c.addFact(st, ts.Implies(ts.Eq(err, eof), ts.Eq(depth, ts.Int(0))))
+		nd := ts.Ite(ts.And(ok, isStart), ts.Add(depth, ts.Int(1)), ts.Ite(ts.And(ok, isEnd), ts.Sub(depth, ts.Int(1)), depth))
+		c.gset(st, "G:xddepth", dec, nd)
+	}
+	return []*Term{res, err}
 }
